@@ -75,7 +75,74 @@ def attach_monitors():
 
 
 def plan(tier):
-    return [('history', _PER[tier])]
+    return [('history', _PER[tier]),
+            ('cache-option', 3 if tier == 'quick' else 40)]
+
+
+CACHE_DECK = '''cache option: flagged plane moved by a TRCL
+1 1 -1.5 -1 2 -3 4 -5 6 imp:n=1 trcl=({shift} 0 0)
+2 0 -9 #1 imp:n=1
+3 0 9 imp:n=0
+
+{f1}1 px 5
+2 px -5
+{f3}3 py 5
+4 py -5
+5 pz 5
+6 pz -5
+9 so 60
+
+m1 13027 1
+'''
+
+
+def run_cache(case, ctx, out):
+    '''--cache is an option like any other: the second conversion of a deck,
+    which reads what the first one cached next to the input, must write the
+    same file as the first one and as a conversion without the option.'''
+    rng = case.rng
+    if case.index % 3 == 0:
+        text = CACHE_DECK.format(shift=rng.choice([20, 13.5, -17]),
+                                 f1=rng.choice('*+'),
+                                 f3=rng.choice(['', '*', '+']))
+        opts, kind = [], 'flagged surface of a TRCL cell'
+    else:
+        text, opts, kind = rng.choice(draw_decks(case))
+    name = f'cache{case.index}'
+    plain = ctx.convert(text, opts, name=name + 'p')
+    if not plain.ok:
+        out.skipped = 'deck-not-convertible'
+        return out
+    outputs = []
+    for _ in range(2):
+        run_ = ctx.convert(text, list(opts) + ['--cache'], name=name)
+        if not run_.ok:
+            out.violation('cache-run-failed', f'{kind}: {run_.brief()}')
+            return out
+        outputs.append(strip_header(run_.output))
+    for fname in os.listdir(ctx.workdir.path):
+        if fname.startswith(name) and fname.endswith('.cache'):
+            os.remove(os.path.join(ctx.workdir.path, fname))
+            out.counters['cache_files_removed'] += 1
+    out.judged += 2
+    out.counters['cache_pairs'] += 1
+    out.structure = 'cache:' + hashlib.sha1(text.encode()).hexdigest()[:12]
+    out.decks = [(f'{kind}', text, list(opts) + ['--cache'])]
+    reference = strip_header(plain.output)
+
+    def body(txt):
+        return txt.split('\nBOUNDARY_CONDITION')[0]
+    for label, got in (('first', outputs[0]), ('second', outputs[1])):
+        if got != reference:
+            mech = None
+            if label == 'second' and body(got) == body(reference) and \
+                    got.count('ALL_COMPLETE') < reference.count('ALL_COMPLETE'):
+                mech = 'cache-second-run-drops-boundary-conditions'
+            out.violation('cache-dependent-output', f'{kind}: the {label} '
+                          'conversion with --cache differs from the '
+                          'conversion without it', mech=mech,
+                          diff=_first_diff(reference, got))
+    return out
 
 
 def _fp(obj, depth=0):
@@ -212,6 +279,8 @@ def draw_decks(case):
 def run(case, ctx):
     out = core.Outcome()
     rng = case.rng
+    if case.family == 'cache-option':
+        return run_cache(case, ctx, out)
     decks = draw_decks(case)
     order = list(range(len(decks))) * 2
     while len(order) < rng.randint(6, 40):
